@@ -13,6 +13,8 @@
 //	   cancelAt n: the context is cancelled during the n-th callback (RetentionSleep 100 ms); nz / nn: the same
 //	            with RetentionSleep 0 / 1 ns (the select at the callback end is then a race); "-": never
 //	 => <order of callbacks> <ok|ERR> <callbacks> E=<effective schedule> D=<survivors> R=<removed by the scanner>
+//	dlv <store> <period_s> <wait_s> <dates>            real StoreManager.Deliver of mails with their own Date: headers
+//	 => ok|ERR <surviving message numbers>             (past / future / none / garbled), wait, DoScan: arrival time decides
 //	start <store> <period_s> <cancel_ms> <boxes>      cancel_ms < 0: never cancelled; >= 60000: Start's first scan
 //	 => returned|TIMEOUT D=<survivors>                  (one minute after Start) has run before the cancellation
 //
@@ -37,6 +39,7 @@ import (
 	"github.com/inbucket/inbucket/v3/pkg/extension"
 	"github.com/inbucket/inbucket/v3/pkg/extension/event"
 	"github.com/inbucket/inbucket/v3/pkg/message"
+	"github.com/inbucket/inbucket/v3/pkg/policy"
 	"github.com/inbucket/inbucket/v3/pkg/storage"
 	"github.com/inbucket/inbucket/v3/pkg/storage/file"
 	"github.com/inbucket/inbucket/v3/pkg/storage/mem"
@@ -403,6 +406,72 @@ func runStart(in []string) []string {
 	return []string{res, d.dump()}
 }
 
+// runDeliver: dlv <store> <period_s> <wait_s> <dates>
+// Mail arrives through the real delivery path (message.StoreManager.Deliver: header parsing, policy, hooks,
+// Store.AddMessage) carrying its own Date: header — seconds relative to now, comma separated: negative = in the
+// past, positive = in the future, "x" = no Date header, "g" = garbled — then wait_s seconds pass and DoScan runs.
+// What retention goes by is when the mail ARRIVED: => ok <survivors: message numbers>
+func runDeliver(in []string) []string {
+	st, cleanup := newStore(in[0])
+	defer cleanup()
+	period, wait := vh.AtoI(in[1]), vh.AtoI(in[2])
+	conf := &config.Root{MailboxNaming: config.LocalNaming}
+	conf.SMTP.DefaultAccept, conf.SMTP.DefaultStore = true, true
+	pol := &policy.Addressing{Config: conf}
+	mgr := &message.StoreManager{AddrPolicy: pol, Store: st, ExtHost: extension.NewHost()}
+	from, err := pol.ParseOrigin("sender@src.example")
+	if err != nil {
+		return []string{"SETUPERR"}
+	}
+	dates := strings.Split(in[3], ",")
+	for i, ds := range dates {
+		rcpt, err := pol.NewRecipient(fmt.Sprintf("box%d@dst.example", i%2))
+		if err != nil {
+			return []string{"SETUPERR"}
+		}
+		hdr := ""
+		switch ds {
+		case "x":
+		case "g":
+			hdr = "Date: the day before yesterday\r\n"
+		default:
+			hdr = "Date: " + time.Now().Add(time.Duration(vh.AtoI(ds))*time.Second).Format(time.RFC1123Z) + "\r\n"
+		}
+		content := fmt.Sprintf("%sFrom: sender@src.example\r\nTo: box%d@dst.example\r\nSubject: m%d\r\n\r\nbody %d\r\n", hdr, i%2, i, i)
+		if err := mgr.Deliver(from, []*policy.Recipient{rcpt}, "Received: from verif", []byte(content)); err != nil {
+			return []string{"DELIVERERR", vh.HS(err.Error())}
+		}
+	}
+	time.Sleep(time.Duration(wait) * time.Second)
+	rs := storage.NewRetentionScanner(config.Storage{RetentionPeriod: time.Duration(period) * time.Second}, st)
+	res := "ok"
+	if err := rs.DoScan(context.Background()); err != nil {
+		res = "ERR"
+	}
+	var surv []int
+	for b := 0; b < 2; b++ {
+		ms, err := st.GetMessages(fmt.Sprintf("box%d", b))
+		if err != nil {
+			return []string{"LISTERR"}
+		}
+		for _, m := range ms {
+			if n, err := strconv.Atoi(strings.TrimPrefix(m.Subject(), "m")); err == nil {
+				surv = append(surv, n)
+			}
+		}
+	}
+	sort.Ints(surv)
+	ss := make([]string, len(surv))
+	for i, v := range surv {
+		ss[i] = strconv.Itoa(v)
+	}
+	s := strings.Join(ss, ",")
+	if s == "" {
+		s = "-"
+	}
+	return []string{res, s}
+}
+
 func exec(kind string, in []string) []string {
 	if asmsys.Is(kind) {
 		return asmsys.Exec(kind, in)
@@ -412,6 +481,8 @@ func exec(kind string, in []string) []string {
 		return runScan(in)
 	case "start":
 		return runStart(in)
+	case "dlv":
+		return runDeliver(in)
 	}
 	return []string{"UNKNOWN-KIND"}
 }
